@@ -25,6 +25,23 @@ type Header struct {
 	Name      string   `json:"name"`
 	Revisions []string `json:"revisions,omitempty"` // any order
 	Tag       string   `json:"tag"`                 // goes into the namespace, identifies the text
+	// SharedNS: all texts of this name carry the namespace urn:<name>, as the revisions of a real module do;
+	// the tag then stands in the organization statement.
+	SharedNS bool `json:"shared_namespace,omitempty"`
+}
+
+// tagOf reads back the "urn:"+tag of a header module.
+func tagOf(m *yang.Module) string {
+	if m == nil {
+		return "nothing"
+	}
+	if m.Organization != nil {
+		return "urn:" + m.Organization.Name
+	}
+	if m.Namespace == nil {
+		return "no namespace"
+	}
+	return m.Namespace.Name
 }
 
 type Importer struct {
@@ -69,7 +86,11 @@ func latest(revs []string) string {
 
 func (h Header) text() string {
 	var b strings.Builder
-	fmt.Fprintf(&b, "module %s {\n namespace \"urn:%s\";\n prefix p;\n import common { prefix cm; }\n", h.Name, h.Tag)
+	if h.SharedNS {
+		fmt.Fprintf(&b, "module %s {\n namespace \"urn:%s\";\n prefix p;\n import common { prefix cm; }\n organization \"%s\";\n", h.Name, h.Name, h.Tag)
+	} else {
+		fmt.Fprintf(&b, "module %s {\n namespace \"urn:%s\";\n prefix p;\n import common { prefix cm; }\n", h.Name, h.Tag)
+	}
 	for _, r := range h.Revisions {
 		fmt.Fprintf(&b, " revision %s;\n", r)
 	}
@@ -186,21 +207,21 @@ func checkRevisions(c Case, o *ev.Outcome) {
 		// bindings
 		for n, k := range latestOf {
 			m := ms.Modules[n]
-			if m == nil || m.Namespace == nil || m.Namespace.Name != "urn:"+want[k] {
-				got := "nothing"
-				if m != nil && m.Namespace != nil {
-					got = m.Namespace.Name
-				}
+			if tagOf(m) != "urn:"+want[k] {
+				got := tagOf(m)
 				o.Violate("bare-name-is-latest", "C13/revisions/bare-name/"+cls, "load order %v: the bare name %s denotes %s, the latest loaded revision is %q (urn:%s)", perm, n, got, k.rev, want[k])
 				return
 			}
+		}
+		if len(c.Headers) > 0 && c.Headers[0].SharedNS {
+			o.Class("revisions-share-namespace")
 		}
 		for k, tag := range want {
 			if k.rev == "" {
 				continue
 			}
 			m := ms.Modules[k.name+"@"+k.rev]
-			if m == nil || m.Namespace.Name != "urn:"+tag {
+			if tagOf(m) != "urn:"+tag {
 				o.Violate("dated-name-is-exact", "C13/revisions/dated-key/"+cls, "load order %v: %s@%s does not denote the text with that revision", perm, k.name, k.rev)
 				return
 			}
@@ -236,7 +257,7 @@ func checkRevisions(c Case, o *ev.Outcome) {
 					o.Violate("imports-resolve", "C13/revisions/import-unbound/"+cls, "load order %v: import of %s in %s is not bound", perm, im.Of, im.Name)
 					return
 				}
-				got := mod.Import[0].Module.Namespace.Name
+				got := tagOf(mod.Import[0].Module)
 				var exp string
 				if im.Date == "" {
 					exp = "urn:" + want[latestOf[im.Of]]
@@ -266,7 +287,7 @@ func checkRevisions(c Case, o *ev.Outcome) {
 					o.Violate("prefix-denotes-revision", "C13/revisions/prefix-binding/grouping/"+kind+"/"+cls, "load order %v: in %s 'uses i:g' (import %s, revision-date %q) did not expand the grouping of %q", perm, im.Name, im.Of, im.Date, tag)
 					return
 				}
-				if r := e.Dir["r"]; r == nil || r.Type == nil || r.Type.IdentityBase == nil || canon.OwnerName(r.Type.IdentityBase) != im.Of || yang.RootNode(r.Type.IdentityBase).Namespace.Name != exp {
+				if r := e.Dir["r"]; r == nil || r.Type == nil || r.Type.IdentityBase == nil || canon.OwnerName(r.Type.IdentityBase) != im.Of || tagOf(yang.RootNode(r.Type.IdentityBase)) != exp {
 					o.Violate("prefix-denotes-revision", "C13/revisions/prefix-binding/identity/"+kind+"/"+cls, "load order %v: in %s the identityref base i:id (import %s, revision-date %q) is not the identity of %q (%s)", perm, im.Name, im.Of, im.Date, tag, func() string {
 						if r == nil || r.Type == nil {
 							return "no leaf/type"
@@ -274,7 +295,7 @@ func checkRevisions(c Case, o *ev.Outcome) {
 						if r.Type.IdentityBase == nil {
 							return "IdentityBase is nil"
 						}
-						return "found in " + canon.OwnerName(r.Type.IdentityBase) + " " + yang.RootNode(r.Type.IdentityBase).Namespace.Name
+						return "found in " + canon.OwnerName(r.Type.IdentityBase) + " " + tagOf(yang.RootNode(r.Type.IdentityBase))
 					}())
 					return
 				}
@@ -574,8 +595,9 @@ var dates = []string{"2019-05-05", "2020-01-01", "2020-01-02", "2021-12-31"}
 func genRevisions(t *rapid.T) Case {
 	c := Case{Kind: "revisions"}
 	n := rapid.IntRange(1, 5).Draw(t, "modules")
+	shared := rapid.Bool().Draw(t, "shared-namespace")
 	for i := 0; i < n; i++ {
-		h := Header{Name: rapid.SampledFrom([]string{"foo", "bar"}).Draw(t, "name")}
+		h := Header{Name: rapid.SampledFrom([]string{"foo", "bar"}).Draw(t, "name"), SharedNS: shared}
 		k := rapid.IntRange(0, 3).Draw(t, "revisions")
 		seen := map[string]bool{}
 		for j := 0; j < k; j++ {
